@@ -66,6 +66,16 @@ CHECKS['C01'] = dict(
          'pinned serializer; thread-private output aliases; worker overlap forced by a rendezvous inside bodies.',
     technique='Hypothesis property-based testing of generated programs (record/replay round trip)')
 
+CHECKS['C03'] = dict(
+    engine='progsim', category='exploration', design='DESIGN.md 3 C03',
+    text='Hypothesis-generated pairs (recorded program, edited replayed program): recorded_outputs and '
+         'playback_outputs must each equal the image of the harness call-site journal of the run that produced them '
+         '(one entry per output call keyed by alias and per-alias ordinal, args without the instance, kwargs, operation '
+         'entry), and the keys at which they differ must be exactly the keys at which the journals differ.',
+    note='Expected side is computed from a journal written at the call sites by the harness, independent of the '
+         'recorder. The persisted key text is pinned on purpose. Nested interceptions excluded (not captured by design).',
+    technique='Hypothesis property-based testing with edit scripts (metamorphic) against a call-site journal')
+
 ENGINES = [
     ('progsim', 'pbt/progsim.py', 'program simulator: JSON program descriptions -> real decorated classes, undecorated '
                                   'twin, journals, fault injection, program strategies', ['C01', 'C02', 'C03', 'C04',
